@@ -527,7 +527,7 @@ func c06Main(r *run.Runner) {
 		params c06Params
 	}
 	var seqs []seq
-	names := []string{"n", "m", "true", "na"}
+	names := []string{"n", "m", "true", "na", "Null", "TRUE"}
 	for _, pm := range c06ParamMaps[:5] {
 		param := ""
 		if _, ok := pm.m["p"]; ok {
